@@ -286,8 +286,7 @@ def r5(R5, cfg, F):
             roots = b.call_roots(aggs[0]['rv']['ops'][0])
             ok = [r.callee.defp for r in roots if r.callee] == ['anycache::AssetMap::insert']
         R5.check(ok, cfg, b.path, 'Ok-payload-is-insert-result', 'add_asset must return what AssetMap::insert returned (the winner of the race)', b.loc())
-    for p, callee in (('<T as anycache::Cache>::insert', 'anycache::AssetMap::insert'),
-                      ('anycache::CacheExt::add_any', 'anycache::Cache::insert')):
+    for p, callee in (('<T as anycache::Cache>::insert', 'anycache::AssetMap::insert'),):
         b = F.body(p)
         if not b:
             R5.missing(cfg, p)
@@ -295,6 +294,15 @@ def r5(R5, cfg, F):
         roots = b.call_roots(0)
         R5.check([r.callee.defp for r in roots if r.callee] == [callee], cfg, p, 'returns-' + callee,
                  '%s must return the result of %s' % (p, callee), b.loc())
+    # get_or_insert (its add_any helper is looked through): what it returns is what the look-up found, or what Cache::insert returned
+    b = F.body('anycache::CacheExt::_get_or_insert')
+    if not b:
+        R5.missing(cfg, 'anycache::CacheExt::_get_or_insert')
+    else:
+        roots = b.call_roots(0, passthrough=common.make_pt(r'UntypedHandle::downcast_ref_ok$'))
+        names = sorted({r.callee.defp or r.callee.best for r in roots if r.callee})
+        R5.check('anycache::Cache::insert' in names and set(names) <= {'anycache::Cache::insert', 'anycache::CacheExt::_get_cached_entry'}, cfg, b.path, 'returns-anycache::Cache::insert',
+                 'get_or_insert must return the entry found by its look-up or the result of Cache::insert; it returns the result of %s' % names, b.loc())
 
 
 def r6(R6, cfg, F):
